@@ -387,6 +387,16 @@ func (s *Server) dispatch(c *conn, name string, args [][]byte) interface{} {
 			if e := s.Cluster.checkTxn(s, c, q); e != nil {
 				return e
 			}
+			// ownership is judged again at EXEC (a slot handed over since the commands were queued): the whole
+			// transaction is discarded with the redirection as EXEC's answer
+			if s.Cluster.ExecRecheck {
+				for _, a := range q {
+					if e := s.Cluster.routeQuiet(s, c, strings.ToLower(string(a[0])), a[1:]); e != nil {
+						c.asking = false
+						return e
+					}
+				}
+			}
 		}
 		s.blk++
 		blk := s.blk
